@@ -160,7 +160,7 @@ func c15CheckOn(c c15Case, live *sbom.NodeList, before string) error {
 			return err
 		}
 		cur := hx.GraphSets(r)
-		if d > 1 {
+		if d > 1 && len(wn) > 0 { // (monotonicity is stated for start nodes of the graph)
 			for k := range prev.Nodes {
 				if cur.Nodes[k] == 0 {
 					return fmt.Errorf("NodeDescendants not monotone: node %q at depth %d missing at depth %d", k, d-1, d)
@@ -263,7 +263,10 @@ func c15Property(t *rapid.T) {
 	}
 	c15Timed(t, c)
 
-	// independence of node and edge order (and of how targets are grouped into edges)
+	// independence of node and edge order (and of how targets are grouped into edges), for start nodes of the graph
+	if nodeByID(nl, start) == nil {
+		return
+	}
 	p := &sbom.NodeList{Nodes: hx.Permute(t, "pn", nl.Nodes), Edges: hx.Permute(t, "pe", nl.Edges), RootElements: hx.Permute(t, "pr", nl.RootElements)}
 	for _, pair := range [][2]*sbom.NodeList{
 		{nl.NodeGraph(start), p.NodeGraph(start)},
